@@ -343,6 +343,37 @@ pub fn run(tier: Tier) -> CheckResult {
             cases.push(Case { site: s.name().into(), ty: RTy::Tuple(vec![RTy::named("Uuid"), RTy::named("Other")]), mappings: vec![("Uuid".into(), "string".into()), ("Oth".into(), "number".into()), ("OtherX".into(), "number".into())], zod });
         }
     }
+    // two emit sites of one event whose payloads agree only THROUGH the mapping: the listener keeps
+    // the mapped type
+    for (a, b, key_a, key_b) in [("PathBuf", "String", Some("PathBuf"), None), ("Uuid", "PathBuf", Some("Uuid"), Some("PathBuf")), ("Vec<Uuid>", "Vec<String>", Some("Uuid"), None), ("Option<PathBuf>", "Option<Uuid>", Some("PathBuf"), Some("Uuid"))] {
+        for zod in [false, true] {
+            let src = format!("{}use tauri::{{AppHandle, Emitter}};\n#[tauri::command]\npub fn anchor() -> bool {{ true }}\npub fn one(app: &AppHandle, p: {}) {{ app.emit(\"moved\", p).unwrap(); }}\npub fn other(app: &AppHandle) {{ app.emit(\"tick\", 1).unwrap(); }}\npub fn two(app: &AppHandle, p: {}) {{ app.emit(\"moved\", p).unwrap(); }}\n", gen::PRELUDE, a, b);
+            let mappings: Vec<(String, String)> = [key_a, key_b].into_iter().flatten().map(|k| (k.to_string(), "string".to_string())).collect();
+            let run = run_lib_default(&gen::Project::single(src), &Cfg { type_mappings: mappings.clone(), ..Cfg::mode(zod) });
+            if let Some(text) = run.file("events.ts") {
+                let want = a.replace("PathBuf", "string").replace("Uuid", "string").replace("String", "string");
+                let want_shape = ts::parse_type(&want.replace("Vec<string>", "string[]").replace("Option<string>", "string | null")).map(|t| shape::from_ts(&t));
+                // the listener for `moved`: its payload parameter type
+                // `return listen<T>('moved', ...`
+                let got = text.split(">('moved'").next().filter(|_| text.contains(">('moved'")).and_then(|head| head.rsplit("listen<").next()).map(|t| t.trim().to_string());
+                if got.is_none() {
+                    res.machinery_errors.push("C18 two-site case: cannot find listen<..>('moved' in events.ts".into());
+                }
+                let got_shape = got.as_ref().and_then(|g| ts::parse_type(g).ok()).map(|t| shape::from_ts(&t));
+                if let (Ok(w), Some(g)) = (&want_shape, &got_shape) {
+                    if w != g {
+                        res.violations.push(
+                            Violation::new("C18", "mapped-shape", format!("event `moved` emitted with {} at one site and {} at another, mapping {:?} ({} mode): the listener's payload is `{}` but both sites translate to `{}`", a, b, mappings, if zod { "zod" } else { "none" }, got.clone().unwrap_or_default(), w.show()), json!({"two_sites": [a, b], "zod": zod}))
+                                .field("site", "event-two-sites")
+                                .field("mode", if zod { "zod" } else { "none" })
+                                .field("mapped", mappings.iter().map(|(k, _)| k.clone()).collect::<Vec<_>>().join("+"))
+                                .field("targets", "string"),
+                        );
+                    }
+                }
+            }
+        }
+    }
     // the same table through configuration files and the real binary: keys with one and with several
     // generic arguments, and the mapped type spelled with module paths (ASCII and not) in the sources
     let cli_cases: Vec<(&str, &str)> = vec![
